@@ -60,6 +60,10 @@ func streamCli(o *Out, r *rand.Rand, n int, thorough bool) {
 		{"runErr", `throw "boom"`}, {"runErr", "undefinedFunction()"}, {"runErr", "1 % 0"}, {"runErr", `x = [1]; x[5]`},
 		{"runErr", `toInt()`}, {"runErr", `keys(1)`}, {"runErr", `load("/nonexistent/lib.ank")`}, {"runErr", `load("/")`},
 		{"runErr", "func f() {\nload(\"/nonexistent/deep.ank\")\n}\nf()"},
+		// a bundled package is available through import(...) only: its bare name is an undefined symbol like any other
+		{"runErr", "sort.Ints([2, 1])"}, {"runErr", "t = time"}, {"runErr", "println(regexp)"}, {"runErr", "func f() {\nreturn json\n}\nf()"},
+		{"ok", "println(defined(\"time\"), defined(\"regexp\"), defined(\"os\"))"}, {"ok", "try {\nj = json\nprintln(\"json is bound\")\n} catch e {\nprintln(\"json is not bound\")\n}"},
+		{"ok", "x = (url ?? \"no url\")\nprintln(x)"},
 		{"exit", "os = import(\"os\")\nos.Exit(0)"}, {"exit", "os = import(\"os\")\nos.Exit(3)"},
 		{"parseErr", "x = ("}, {"parseErr", `s = "unterminated`}, {"parseErr", "if { }"}, {"parseErr", "1 +* 2"}, {"parseErr", "func("},
 	}
